@@ -15,7 +15,7 @@ RULE = ("(a) heap.h in process with the player's comparator: every sequence of <
         "(b) ovnidump/ovnitop on 0-8 streams of 0-30 arbitrary events with heavy cross-stream clock ties, empty "
         "streams, time scales from 1 ns to 70 s between events (clock differences beyond 32 bits), nested stream directories, two creation orders: output is a valid merge (non-decreasing clock, "
         "every event once, per-stream order kept), identical for both creation orders; ovnitop counts = multiset. "
-        "(c) ovniemu with 1-3 looms and clock-offsets.txt (negative, zero, large), tracer-dye marks: lines of "
+        "(b') the text-mode dump lists exactly the events of the hex-mode dump, also well-formed events it cannot render (labels of 1000-5000 characters).  (c) ovniemu with 1-3 looms and clock-offsets.txt (negative, zero, large; hosts whose own clocks are hours apart; corrected origins that are negative or exactly 0; clocks beyond 2^53), tracer-dye marks: lines of "
         "thread.prv in file order are a valid merge in corrected time, each time = corrected - corrected(first), "
         "header duration = last - first, byte-identical output for permuted directory creation order.  "
         "Non-trivial = >= 2 streams with a cross-stream tie, or an offset table that changes the merge order.")
